@@ -285,6 +285,14 @@ func (r *arcRun) fail(sig, format string, a ...any) {
 	r.c.Count("fail." + r.kind + ":" + sig)
 }
 
+// position-dependent failures on a tar entry that has been opened more than once are one finding
+func (r *arcRun) shared(ref *refHandle, sig string) string {
+	if r.kind == "tar" && r.opened[ref.entry] > 1 {
+		return "handles-share-offset"
+	}
+	return sig
+}
+
 func (r *arcRun) children(dir string) []int {
 	var out []int
 	for i, e := range r.es {
@@ -450,11 +458,11 @@ func (r *arcRun) exec(step int, name string, a []string) (out string, extra map[
 					}
 					r.fail(sig, "handle %d (open #%d of entry %d) at offset %d: Read(%d) = %s, want %s", hi, ref.nth, ref.entry, ref.pos, n, dhx(buf[:k]), dhx(want))
 				case err != nil && err != io.EOF:
-					r.fail("read-error", "Read(%d) at %d of %d: %v", n, ref.pos, size, err)
+					r.fail(r.shared(ref, "read-error"), "Read(%d) at %d of %d: %v", n, ref.pos, size, err)
 				case err == io.EOF && ref.pos+int64(k) < size:
-					r.fail("read-early-eof", "Read(%d) at %d of %d reported EOF", n, ref.pos, size)
+					r.fail(r.shared(ref, "read-early-eof"), "Read(%d) at %d of %d reported EOF", n, ref.pos, size)
 				case err == nil && k == 0 && n > 0:
-					r.fail("read-no-eof", "Read(%d) at %d of %d returned 0, nil", n, ref.pos, size)
+					r.fail(r.shared(ref, "read-no-eof"), "Read(%d) at %d of %d returned 0, nil", n, ref.pos, size)
 				}
 				ref.pos += int64(len(want))
 			}
@@ -506,12 +514,12 @@ func (r *arcRun) exec(step int, name string, a []string) (out string, extra map[
 			switch {
 			case ref.closed || wh < 0 || wh > 2 || target < 0:
 				if err == nil {
-					r.fail("seek-no-error", "Seek(%d, %d) closed=%v at %d of %d succeeded: %d", off, wh, ref.closed, ref.pos, size, k)
+					r.fail(r.shared(ref, "seek-no-error"), "Seek(%d, %d) closed=%v at %d of %d succeeded: %d", off, wh, ref.closed, ref.pos, size, k)
 				}
 			case err != nil && target <= size:
-				r.fail("seek-error", "Seek(%d, %d) at %d of %d: %v", off, wh, ref.pos, size, err)
+				r.fail(r.shared(ref, "seek-error"), "Seek(%d, %d) at %d of %d: %v", off, wh, ref.pos, size, err)
 			case err == nil && k != target:
-				r.fail("seek-wrong-pos", "Seek(%d, %d) at %d of %d = %d, want %d", off, wh, ref.pos, size, k, target)
+				r.fail(r.shared(ref, "seek-wrong-pos"), "Seek(%d, %d) at %d of %d = %d, want %d", off, wh, ref.pos, size, k, target)
 			}
 			if err == nil {
 				ref.pos = k
